@@ -182,6 +182,9 @@ func main() {
 	if only == "" || only == "parquet" {
 		enumPQ(pp, emit)
 	}
+	if cp.Big && (only == "" || only == "csv") {
+		enumCSVBig(emit)
+	}
 	if len(batch) > 0 {
 		ch <- batch
 	}
